@@ -325,7 +325,7 @@ func (e *Engine) allocMem(st *State, th *Thread, t types.Type, n int, site strin
 			cells = append(cells, one...)
 		}
 	}
-	st.Heap[id] = &Object{Kind: OMem, Cells: cells, T: t, Site: site, ep: st.ep}
+	st.setObj(id, &Object{Kind: OMem, Cells: cells, T: t, Site: site, ep: st.ep})
 	return id
 }
 
@@ -758,14 +758,14 @@ func (e *Engine) exec(st *State, th *Thread, fr *Frame, instr ssa.Instruction) s
 
 	case *ssa.MakeMap:
 		id := e.newObjID(st, th, e.pos(in))
-		st.Heap[id] = &Object{Kind: OMap, T: in.Type(), Site: e.pos(in), ep: st.ep}
+		st.setObj(id, &Object{Kind: OMap, T: in.Type(), Site: e.pos(in), ep: st.ep})
 		e.set(st, th, in, MapRef{id})
 		e.advance(st, th)
 
 	case *ssa.MakeChan:
 		n := e.concreteInt(st, e.get(st, fr, in.Size).(*term.Term), "channel size")
 		id := e.newObjID(st, th, e.pos(in))
-		st.Heap[id] = &Object{Kind: OChan, Cap: n, Closed: term.False, T: in.Type(), Site: e.pos(in), ep: st.ep}
+		st.setObj(id, &Object{Kind: OChan, Cap: n, Closed: term.False, T: in.Type(), Site: e.pos(in), ep: st.ep})
 		e.set(st, th, in, ChanRef{id})
 		e.advance(st, th)
 
@@ -856,12 +856,12 @@ func (e *Engine) exec(st *State, th *Thread, fr *Frame, instr ssa.Instruction) s
 		id := e.newObjID(st, th, e.pos(in))
 		switch xv := x.(type) {
 		case MapRef:
-			st.Heap[id] = &Object{Kind: OIter, IterMap: xv.Obj, ep: st.ep}
+			st.setObj(id, &Object{Kind: OIter, IterMap: xv.Obj, ep: st.ep})
 		case *term.Term:
 			if !xv.IsConst() {
 				abort("UNMODELLED", "range over symbolic string")
 			}
-			st.Heap[id] = &Object{Kind: OIter, IterStr: xv, ep: st.ep}
+			st.setObj(id, &Object{Kind: OIter, IterStr: xv, ep: st.ep})
 		default:
 			abort("INTERNAL", "Range on %T", x)
 		}
